@@ -43,6 +43,7 @@ LEVEL = {
     "technique": "static analysis: finite-domain abstract evaluation of the unwind loop against a reference table",
 }
 LEVEL["decided"] += ' The unwind table distinguishes exits that fail when *called* (synchronous exits wrapped for awaiting) from exits that fail when awaited: 312 scenarios.'
+LEVEL["decided"] += ' (R14.7) no finally block of the unwind can replace its outcome; R14.5 accepts a closure or pre-bound partial as the registered runner under the same obligations.'
 
 STACK_ATTR = "_exit_callbacks"  # re-derived from ExitStack.__init__ on every run (_derive_stack_attr)
 
